@@ -354,6 +354,12 @@ MULTI_JOIN = (
     pe(("join", ("K",), None, False), "s", False, True, False),
     pe(("join", ("K",), None, True), "s", True, False, False),
     ("join", ("K1",), None, False),
+    # explicit preferred engine different from the fixed operand's engine (PartialJoin.apply)
+    pe(("join", ("K1",), None, False), "s", True, False, False),
+    pe(("join", ("K1",), None, False), "s", True, True, False),
+    pe(("join", ("K1",), None, False), "e2", True, False, False),
+    pe(("join", ("K",), None, False), "e1", True, False, False),
+    pe(("join", ("K",), None, False), "e1", True, True, False),
 )
 MULTI_FULL = MULTI_PLAIN + MULTI_PE + MULTI_JOIN
 
